@@ -21,7 +21,7 @@ ASSUMPTIONS = ["checkpoint layout as in test_assets/example_chk_3d", "pool shim 
 REQUIRED_OBS = {"conversions": 40, "with_reactions": 10, "with_gradp": 20, "floored": 15,
                 "anisotropic": 10, "default_output": 8, "ref_plotfile": 10, "second_checkpoint_same_process": 10, "no_chk_in_name": 10}
 TIMEOUT = {"quick": 400, "thorough": 2000}
-SPECIES = ["H2", "O2", "N2", "H2O", "CH2(S)"]
+SPECIES = ["H2", "IC8H18", "RO2", "Y2O3", "CH2(S)"]     # names that start with the letters of the prefixes Y( and I_R(
 
 
 def cases(tier, seed):
